@@ -223,15 +223,24 @@ def eval_term(t, env):
     return apply_label(t[0], [eval_term(a, env) for a in t[1:]])
 
 
-def outcomes(terms, env, n):
-    """ what evaluating the terms one after the other delivers: canonical items + how it ends """
+def outcomes(terms, env, n, lost=()):
+    """ what evaluating the terms one after the other delivers: canonical items + how it ends.
+        `lost`: the terms the terminating next() computes and throws away (model only): python evaluates
+        them too, so an element operation that raises there surfaces instead of the end """
     items = []
     for t in terms:
         try:
             items.append(canon(eval_term(t, env)))
         except Exception as e:
             return {"items": items, "end": "err:" + err_kind(e)}
-    return {"items": items, "end": "limit" if len(terms) >= n else "stop"}
+    if len(terms) >= n:
+        return {"items": items, "end": "limit"}
+    for t in lost:
+        try:
+            eval_term(t, env)
+        except Exception as e:
+            return {"items": items, "end": "err:" + err_kind(e), "from_lost": True}
+    return {"items": items, "end": "stop"}
 
 
 # ------------------------------------------------------------------------------------------------
@@ -523,7 +532,7 @@ def request(c):
     return {"entry": c["entry"]}
 
 
-def _cmp_side(c, io, side, label, env, leaves, with_reads):
+def _cmp_side(c, io, side, label, env, leaves, with_reads, lost=None):
     """ compare the impl observation with one side (model / spec) of the driver payload """
     out = []
     n = take_n(c)
@@ -539,7 +548,7 @@ def _cmp_side(c, io, side, label, env, leaves, with_reads):
         return out
     if not io["type_is_stream"]:
         out.append("impl result is not a Stream")
-    exp = outcomes(side["items"], env, n)
+    exp = outcomes(side["items"], env, n, side.get("lost", ()) if lost is None else lost)
     if exp["items"] != io["items"] or exp["end"] != io["end"]:
         k = next((i for i, (a, b) in enumerate(zip(exp["items"], io["items"])) if a != b), min(len(exp["items"]), len(io["items"])))
         out.append("%s differs at index %d: impl %s (%d items, end=%s) vs %s %s (%d items, end=%s)" % (
@@ -569,7 +578,9 @@ def compare_expr(c, io, drv):
         if "err" not in io:
             out.append(("spec", "spec: not a Stream expression (%s) but impl delivered %r" % (spec["sort"], io.get("items"))))
     else:
-        for d in _cmp_side(c, io, spec, "spec", env, leaves, False):
+        # element operations that raise are outside the property; which exception surfaces at the end is
+        # predicted by the model (its discarded items), so the spec side borrows that list
+        for d in _cmp_side(c, io, spec, "spec", env, leaves, False, lost=drv["model"].get("lost", ())):
             out.append(("spec", d))
         if "err" not in io and not io["end"].startswith("err"):
             n = take_n(c)
